@@ -151,7 +151,8 @@ class Harness:
 
     def run(self, prefix, expect=None, opcodes=False):
         shared = self.setup()
-        ex = S.run_once(self.bodies(), prefix, shared, self.watched, opcodes=opcodes, expect=expect)
+        ex = S.run_once(self.bodies(), prefix, shared, self.watched, opcodes=(opcodes is True),
+                        expect=expect, calls=(opcodes == "calls"))
         # afterwards: the shared class still answers correctly when asked sequentially
         post = None
         if not ex.deadlock and not ex.hang:
@@ -213,6 +214,10 @@ def explore_roots(shard):
     return part, (execs, pts, maxpts)
 
 
+def _gran(opcodes):
+    return "calls" if opcodes == "calls" else ("opcode" if opcodes else "line")
+
+
 def explore_harness(ctx, name, bound, opcodes=False, max_exec=None):
     h = Harness(name)
     # the default execution and the cheap (free-switch) prefixes are executed first, serially;
@@ -264,19 +269,25 @@ def run(ctx, only=None):
                 "schedules), transitions = scheduling points passed")
     ctx.assumptions = [
         "CPython with the GIL: a thread switch can only happen between bytecodes; scheduling points "
-        "are line boundaries of the watched files plus lock operations (opcode granularity is not "
-        "used: instruction events are not reproducible under adaptive specialisation)",
+        "are line boundaries of the watched files, lock operations (creation, acquire) and - at "
+        "granularity 'calls' - entry/return of Python functions of other files called from a watched "
+        "line (opcode granularity is not used: instruction events are not reproducible under "
+        "adaptive specialisation)",
         "shared state of a class is only touched by code in permuta/perm_sets/*.py (watched)",
         "the library's lock objects are replaced from outside by cooperative locks"]
     plan = []   # (harness, bound, opcodes)
     two = ["count-vs-count", "list-vs-in", "upto-vs-count", "warm-deep-vs-list",
            "two-queries-each", "own-construction", "finite-class", "mesh"]
+    small = ("count-vs-count", "finite-class", "mesh", "own-construction")
+    # "calls" = line boundaries PLUS the entry of / return from every Python function outside the
+    # watched files that a watched line calls (a switch in the middle of the calling line); its
+    # points are a superset of the line points, so it replaces the line run where it is used
     if quick:
-        plan += [(h, 2, False) for h in two]
+        plan += [(h, 2, "calls" if h in small else False) for h in two]
         plan += [("three-threads", 1, False)]
     else:
-        plan += [(h, 2, False) for h in two]
-        plan += [(h, 3, False) for h in ("count-vs-count", "finite-class", "mesh", "own-construction")]
+        plan += [(h, 2, "calls") for h in two]
+        plan += [(h, 3, False) for h in small]
         plan += [("three-threads", 2, False), ("three-threads-warm", 1, False),
                  ("four-threads", 1, False)]
         # Opcode granularity is implemented (mc/sched.py) but not used: under CPython 3.12's
@@ -293,9 +304,9 @@ def run(ctx, only=None):
         tot_exec += execs
         tot_pts += pts
         rows.append({"harness": name, "threads": len(HARNESSES[name][3]), "preemption_bound": bound,
-                     "granularity": "opcode" if opcodes else "line", "executions": execs,
+                     "granularity": _gran(opcodes), "executions": execs,
                      "scheduling_points": pts, "max_choice_points": maxpts})
-        ctx.section("%s/b%d/%s" % (name, bound, "op" if opcodes else "line"),
+        ctx.section("%s/b%d/%s" % (name, bound, _gran(opcodes)),
                     executions=execs, points=pts, max_choice_points=maxpts)
     ctx.states = tot_exec
     ctx.transitions = tot_pts
